@@ -122,6 +122,9 @@ def directed_bases():
         "do top s1.new n0", "do top s1.connect 10.0.0.2:7000 h1",
         "do h0 s0.wait_read h4",
         "do h1 s1.wait_read h3",
+        "do top t0.expires_after 25000000", "do top t0.wait h7",
+        "do top t1.expires_after 26000000", "do top t1.wait h8",
+        "do top t2.expires_after 27000000", "do top t2.wait h9",
         "do top run", "end"]) + "\n")
     # segments of a write sit in a slow queue and are then dropped by the next hop: the drop
     # notifications arrive after the intervention on the sender
@@ -209,24 +212,25 @@ def directed_bases():
         "do top run", "end"]) + "\n")
     return out
 
-# directed base -> groups (objects whose every intervention is run, first boundary, last boundary); both the
-# after-handler boundaries s<k> and the after-clock-step boundaries a<k> of that range are used
-DIRECTED = {"bd_udpw": [(["u0"], 1, 3), (["u2", "u3"], 1, 2)],
-            "bd_accnew": [(["a0"], 1, 5)], "bd_accep": [(["a0"], 1, 5)], "bd_acc": [(["a0"], 1, 4)],
-            "bd_res": [(["r0"], 1, 7)],
+# directed base -> groups (objects whose every intervention is run, (first, last) after-handler boundary s<k>,
+# (first, last) after-clock-step boundary a<k>); one range = the same numbers for both kinds
+DIRECTED = {"bd_udpw": [(["u0"], (1, 3)), (["u2", "u3"], (1, 2))],
+            "bd_accnew": [(["a0"], (1, 5))], "bd_accep": [(["a0"], (1, 5))], "bd_acc": [(["a0"], (1, 4))],
+            "bd_res": [(["r0"], (1, 7))],
             # s0: peer of the pending accept (1..4, never destroyed there), then a read on the accepted side of an
             # established connection before anything was written (5..8)
-            "bd_conn": [(["s1", "s2", "a0", "s0"], 1, 8)],
-            "bd_conn2": [(["s0"], 5, 7), (["s1"], 10, 12)],
-            # s0: the receiver while segments to it are being dropped and retransmitted
-            "bd_drop": [(["s1"], 1, 30), (["s0"], 12, 22)],
+            "bd_conn": [(["s1", "s2", "a0", "s0"], (1, 8))],
+            "bd_conn2": [(["s0"], (5, 7)), (["s1"], (10, 13), (9, 11))],
+            # s0: the receiver while segments to it are being dropped
+            "bd_drop": [(["s1"], (1, 30)), (["s0"], (10, 14), (9, 11))],
             # a0: s2's connection request gets queued on the acceptor with no accept outstanding
-            "bd_hsops": [(["s1", "s2", "s3", "a0"], 1, 6)],
-            "bd_eqt": [(["t0", "t1", "t2", "s1", "s2", "r0", "r1"], 1, 4)],
-            # u0 / u1: idle UDP sockets with one datagram in flight each way (u0's is dropped at 5.2 ms, u1's arrives at 10.1 ms)
-            "bd_mvdrop": [(["s1"], 1, 20), (["u0"], 1, 10), (["u1"], 1, 5), (["s0"], 15, 20)],
-            "bd_mvdrop2": [(["s0"], 9, 22), (["u1"], 13, 15)],
-            "bd_rewait": [(["t0"], 1, 10)]}
+            "bd_hsops": [(["s1", "s2", "s3", "a0"], (1, 6))],
+            "bd_eqt": [(["t0", "t1", "t2", "s1", "s2", "r0", "r1"], (1, 4))],
+            # u0 / u1: idle UDP sockets with one datagram in flight each way (u0's is dropped at 5.2 ms, u1's arrives at
+            # 10.1 ms); s0: the receiver while segments to it are dropped and retransmitted
+            "bd_mvdrop": [(["s1"], (1, 20)), (["u0"], (1, 10)), (["u1"], (1, 5)), (["s0"], (15, 22), (13, 18))],
+            "bd_mvdrop2": [(["s0"], (9, 22), (7, 20)), (["u1"], (13, 15), (11, 13))],
+            "bd_rewait": [(["t0"], (1, 10))]}
 
 
 def objects_of(scn):
@@ -313,8 +317,10 @@ def matrix(bases, counts, seed, tier, advs=None, idle=None):
             if not info: return None, peers
             return info[1], (info[2] if len(info) > 2 else peers)
         if sid in DIRECTED:
-            for dobjs, lo, hi in DIRECTED[sid]:
-                for kind, k in [("s", k) for k in range(lo, min(n, hi) + 1)] + [("a", k) for k in range(lo, min(na, hi) + 1)]:
+            for grp in DIRECTED[sid]:
+                dobjs, (lo, hi) = grp[0], grp[1]
+                alo, ahi = grp[2] if len(grp) > 2 else (lo, hi)
+                for kind, k in [("s", k) for k in range(lo, min(n, hi) + 1)] + [("a", k) for k in range(alo, min(na, ahi) + 1)]:
                     busy, alive = at(kind, k)
                     for o in dobjs:
                         for iv in interventions(o, uid, o in alive) + move_interventions(o, uid, busy):
